@@ -152,6 +152,55 @@ func pipeMode(work string) {
 	}
 }
 
+// hist mode: transpilations interleaved on ONE transpiler object (fresh converter per call, as the
+// library is meant to be used).  Lines:  C <id> <main-rel-hex> <n> {<rel-hex> <content-hex>}*   define a case
+//                                         T <id> bash|batch                                        transpile it now
+func histMode(work string) {
+	in := bufio.NewReaderSize(os.Stdin, 1<<24)
+	out := bufio.NewWriter(os.Stdout)
+	defer out.Flush()
+	t := transpiler.New()
+	mains := map[string]string{}
+	n := 0
+	for {
+		line, err := in.ReadString('\n')
+		line = strings.TrimRight(line, "\r\n")
+		if line != "" {
+			f := strings.Split(line, " ")
+			switch f[0] {
+			case "C":
+				mainRel, _ := hex.DecodeString(f[2])
+				dir := filepath.Join(work, fmt.Sprintf("h%d", n))
+				n++
+				for i := 4; i+1 < len(f); i += 2 {
+					rel, _ := hex.DecodeString(f[i])
+					content, _ := hex.DecodeString(f[i+1])
+					p := filepath.Join(dir, string(rel))
+					os.MkdirAll(filepath.Dir(p), 0755)
+					os.WriteFile(p, content, 0644)
+				}
+				mains[f[1]] = filepath.Join(dir, string(mainRel))
+			case "T":
+				fmt.Fprintln(out, "R "+guard(func() string {
+					var conv transpiler.Converter = bash.New()
+					if f[2] == "batch" {
+						conv = batch.New()
+					}
+					s, e := t.Transpile(mains[f[1]], conv)
+					if e != nil {
+						return "ERR"
+					}
+					return "OK " + hex.EncodeToString([]byte(s))
+				}))
+				out.Flush()
+			}
+		}
+		if err != nil {
+			return
+		}
+	}
+}
+
 func main() {
 	if len(os.Args) < 2 {
 		fmt.Fprintln(os.Stderr, "usage: tshdump lex | pipe <workdir>")
@@ -162,6 +211,8 @@ func main() {
 		lexMode()
 	case "pipe":
 		pipeMode(os.Args[2])
+	case "hist":
+		histMode(os.Args[2])
 	default:
 		os.Exit(2)
 	}
